@@ -296,6 +296,9 @@ for n in ["c14_lookups", "c14_iter_root", "c14_iter_walk", "c14_iter_storage", "
             bounds="3-entry file; one call sequence; symbolic contents/metadata", functions=["CompoundFile::*(read-only)", "Entries::next", "Entries::new", "Stream::*"],
             assumes=[A_LOCK, A_SHAPE, A_UPTABLE])
 
+harness("c14_one_lookup", props=["C14"], timeout=1800, mem=10, variant="lock", fs=8192, stubs=[FMT, STUB_UP],
+        what="one read-only call (exists) under the instrumented lock whose try_read/try_write may fail at any time: no unwrap of a failed try-lock, no nested acquisition, guard released",
+        bounds="3-entry file; one call", functions=["CompoundFile::exists", "CompoundFile::minialloc"], assumes=[A_LOCK, A_SHAPE, A_UPTABLE])
 # ---------------------------------------------------------------- faults (C12 / C13)
 A_FAULT = "environment: FaultAt backend - exactly the at-th read/seek (C12) or write/seek/flush (C13) call of the armed phase fails; at is concrete per instance (the position k of the property's quantifier is enumerated by instances)"
 for (n, tier) in [("stor_read_fault_seek0", "quick"), ("stor_read_fault_seek1", "quick"), ("stor_read_fault_seek2", "thorough"),
@@ -437,7 +440,7 @@ QUICK.update({
             "c11_resize_u64max", "c11_write_data_overflow", "c11_write_total", "c11_incons_regshort_resize4500", "c11_root_cycle_append", "open_uncovered_reuse"],
     "C12": ["stor_read_fault_seek0", "stor_read_fault_seek1", "stor_read_fault_read0", "stor_read_cross"] + [n for n in seqs.quick_faults() if "c12" in n],
     "C13": ["c13_free_fault_at0", "c13_free_fault_at2", "c13_free_fault_at4", "c13_dirent_fault_at0", "c13_dirent_fault_at3", "cache_c_write_flush_write_read_min"] + [n for n in seqs.quick_faults() if "c13" in n],
-    "C14": ["c14_lookups", "c14_iter_root", "c14_iter_walk", "c14_iter_storage", "c14_stream_rw", "c14_stream_setlen", "c14_stream_big_window"],
+    "C14": ["c14_one_lookup", "c14_lookups", "c14_iter_root", "c14_iter_walk", "c14_iter_storage", "c14_stream_rw", "c14_stream_setlen", "c14_stream_big_window"],
     "C15": ["alloc_begin_free13", "alloc_extend_free3", "alloc_free_chain3", "alloc_free_after3", "mini_begin_reuse",
             "mini_begin_after_empty", "mini_begin_at_128", "mini_free_tail2", "mini_free_all", "dir_ins_n3_s0_g1", "big_4096_to_100"],
     "C16": ["dirent_parse_storage_v3", "dirent_parse_stream_v3", "dirent_parse_root_v3", "dirent_parse_badtype_v3",
